@@ -18,6 +18,7 @@ STANZA_TUS = ['src/base/QXmppStanza.cpp', 'src/base/QXmppIq.cpp', 'src/base/QXmp
 SASL_KW = dict(sasl2_success=dict(tiers=('manual',)), sasl2_continue=dict(tiers=('manual',)), sasl2_feature=dict(tiers=('manual',)), sasl2_feature_safe=dict(tiers=('manual',)),
                sasl2_authenticate=dict(tiers=('thorough',), timeout_s=600, mem_gb=8), sasl2_continue_safe=dict(mem_gb=8), sasl2_success_safe=dict(mem_gb=6), sasl_auth=dict(mem_gb=3), sasl_challenge=dict(mem_gb=3), sasl_response=dict(mem_gb=3), sasl_success=dict(mem_gb=3),
                sasl2_challenge=dict(mem_gb=3), sasl2_response=dict(mem_gb=3), sasl2_abort=dict(mem_gb=3), fast_token_request=dict(mem_gb=3), fast_request=dict(mem_gb=3))
+SASL_COST = dict(sasl2_continue_safe=90, sasl2_success_safe=55, bind2_feature=40, bind2_bound=40, fast_feature=36, sasl2_failure=28, sasl_failure=24, bind2_request=21)
 MODELS = ['qt_core.c', 'qt_list.c', 'c02_dom.c', 'c02_env.c']
 def iqcase(n1, *children):
     """children: (tag, ns[, (gtag, gns)]) with indices into the vocabulary of h_stanza.cpp: tags iq,error,bind,ping,text,item-not-found,zz,jid; ns '',client,stanzas,bind,ping"""
@@ -32,19 +33,28 @@ IQ_SHAPES = dict(empty=iqcase(0), bind=iqcase(1, (T_BIND, N_BIND, (T_ZZ, N_NONE)
 # an <error/> child: QXmppStanza::parse + Error::parse inside the stanza gave no verdict in 10 min even with a concrete shape; Error::parse alone is the instance `error`
 IQ_ERR_SHAPES = dict(error_cond=iqcase(1, (T_ERROR, N_NONE, (T_INF, N_STANZA))), ext_error=iqcase(2, (T_ZZ, N_PING), (T_ERROR, N_NONE, (T_TEXT, N_STANZA))))
 def IQI(prefix, entry, shapes, **kw):
+    kw.setdefault('mem_gb', 4)
     return [I(prefix + k, entry=entry, dom=6, cdefs={'VP_UTF8_LATIN1': 1, 'VP_CASE': v}, bound='shape %s (VP_CASE=%d); attribute presence/values and text symbolic' % (k, v), **kw) for k, v in shapes.items()]
-IQ_CASES = (IQI('iq_', 'h_iq', IQ_SHAPES) + IQI('iq_', 'h_iq', IQ_ERR_SHAPES, tiers=('manual',))
-            + IQI('bindiq_', 'h_bind_iq', dict(jid=iqcase(1, (T_BIND, N_BIND, (T_JID, N_NONE))), bind_ext=iqcase(2, (T_BIND, N_BIND), (T_ZZ, N_CLIENT, (T_BIND, N_BIND)))))
-            + IQI('pingiq_', 'h_ping_iq', dict(ping=iqcase(1, (T_PING, N_PING)), ping_ext=iqcase(2, (T_PING, N_PING, (T_ZZ, N_NONE)), (T_BIND, N_BIND)))))
+def _kf_listed(key):
+    import re, os
+    try: return any(re.match(r'^known: property=C02 key=%s ' % key, l) for l in open(os.path.join(os.path.dirname(os.path.dirname(os.path.dirname(os.path.abspath(__file__)))), 'known_findings.txt')))
+    except Exception: return False
+# GENUINE DEFECT D3 (duplicated <error/>): generic QXmppIq::parse keeps the <error/> child as extension AND in error(); toXml writes both, so every pass adds one <error/>.
+# iqx_error_cond finds it on the unfixed tree (VIOLATION, replayed) and holds once QXmppIq::parseElementFromChild skips the error child. If the defect is recorded instead of
+# repaired (known_findings.txt: `known: property=C02 key=iq_error_dup ...`), the instance becomes the demonstration of that finding.
+IQX_KW = dict(known_finding='iq_error_dup') if _kf_listed('iq_error_dup') else {}
+IQ_CASES = (IQI('iqx_', 'h_iq_extcount', {'error_cond': IQ_ERR_SHAPES['error_cond']}, timeout_s=500, mem_gb=6, **IQX_KW) + IQI('iqx_', 'h_iq_extcount', {'ext_error': IQ_ERR_SHAPES['ext_error']}, tiers=('manual',)) + IQI('iq_', 'h_iq', {k: v for k, v in IQ_SHAPES.items() if k != 'bind_dup'}) + IQI('iq_', 'h_iq', {'bind_dup': IQ_SHAPES['bind_dup']}, tiers=('thorough',)) + IQI('iq_', 'h_iq', IQ_ERR_SHAPES, tiers=('manual',))
+            + IQI('bindiq_', 'h_bind_iq', dict(jid=iqcase(1, (T_BIND, N_BIND, (T_JID, N_NONE))))) + IQI('bindiq_', 'h_bind_iq', dict(bind_ext=iqcase(2, (T_BIND, N_BIND), (T_ZZ, N_CLIENT, (T_BIND, N_BIND)))), tiers=('thorough',))
+            + IQI('pingiq_', 'h_ping_iq', dict(ping=iqcase(1, (T_PING, N_PING)))) + IQI('pingiq_', 'h_ping_iq', dict(ping_ext=iqcase(2, (T_PING, N_PING, (T_ZZ, N_NONE)), (T_BIND, N_BIND))), tiers=('thorough',)))
 SPEC = dict(
     property='C02',
     groups=[
-        dict(name='sm', harness='h_sm.cpp', tus=SM_TUS, models=MODELS, loop_bounds=DOMLOOPS(5),
-             instances=[I(e, mem_gb=3) for e in ['sm_enable', 'sm_enabled', 'sm_resume', 'sm_resumed', 'sm_ack', 'sm_request', 'sm_failed', 'sm_failed_safe']]),
-        dict(name='sasl', harness='h_sasl.cpp', tus=SASL_TUS, models=MODELS, loop_bounds=DOMLOOPS(8),
-             instances=[I(e, dom=SASL[e], **SASL_KW.get(e, {})) for e in SASL]),
         dict(name='stanza', harness='h_stanza.cpp', tus=STANZA_TUS, models=MODELS,
              instances=[I('error', dom=6, timeout_s=600, mem_gb=8, tiers=('thorough',)), I('error_safe', dom=6, mem_gb=6)] + IQ_CASES),
+        dict(name='sasl', harness='h_sasl.cpp', tus=SASL_TUS, models=MODELS, 
+             instances=[I(e, dom=SASL[e], **SASL_KW.get(e, {})) for e in sorted(SASL, key=lambda e: -SASL_COST.get(e, 10))]),   # expensive instances are started first
+        dict(name='sm', harness='h_sm.cpp', tus=SM_TUS, models=MODELS,
+             instances=[I(e, mem_gb=3) for e in ['sm_enable', 'sm_enabled', 'sm_resume', 'sm_resumed', 'sm_ack', 'sm_request', 'sm_failed', 'sm_failed_safe']]),
         dict(name='stream', harness='h_stream.cpp', tus=STANZA_TUS, models=MODELS,
              instances=[I('features', dom=15, cdefs={'VP_UTF8_LATIN1': 1, 'DOM_MAXCH': 14}, mem_gb=8, timeout_s=600, tiers=('manual',)), I('stream_error', dom=5, timeout_s=600, tiers=('manual',))]),
     ],
@@ -61,7 +71,7 @@ SPEC = dict(
                  'std::vector<QString> growth is modelled (fixed capacity 8, typed slots); QDateTime is an opaque instant with fromString(toString(t)) == t; QXmppElement (not an anchored file) is cut at class level: it keeps the DOM node and toXml() writes tag, xmlns if different from the parent, NON-EMPTY attributes, text and children',
                  'operator""_s literals are evaluated once before the symbolic part (their function-local static would otherwise be initialised under a symbolic path condition); this only affects cost',
                  'a first-half instance plus C01 (field-wise round trip P(W(x)) == x for arbitrary objects x of the same type) implies the fix point for Sasl2::Success / Sasl2::Continue'],
-    outside=['generic QXmppIq (and subclasses) with an <error/> child: QXmppStanza::parse + Error::parse inside the stanza gave no verdict within 15 min even with a concrete shape (instances iq_error_cond / iq_ext_error are tier "manual"); the duplicated-<error/> defect is demonstrated by a hand-made native replay of the generated program (d3_iq_error_replay.json), not by the solver',
+    outside=['generic QXmppIq with an <error/> child: the full two-pass tree comparison gave no verdict within 15 min even with a concrete shape (iq_error_cond / iq_ext_error: tier "manual"); covered instead by iqx_error_cond = both parses and the first serialization with the necessary condition "same number of extension elements after re-parsing" (this is what exposes the duplicated <error/>); d3_iq_error_replay.json is a hand-made native replay of the same defect on the full two-pass harness',
              'two passes for Sasl2::Success, Sasl2::Continue, Sasl2::StreamFeature (no verdict: the serialized tree has many optional children at symbolic positions); Sasl2::StreamFeature and QXmppStreamFeatures::parse even in the first half (QList<QString> + 12 optional children: out of memory / no verdict in 12 min); StreamErrorElement::fromDom (std::variant<..., QXmppError{std::any}>: no verdict in 12 min) - instances kept as tier "manual"',
              'QXmppStanza::Error two passes only in the thorough tier (185 s, 4.6 GB); quick tier: first half',
              'FastToken (QDateTime attribute) and Sasl2::UserAgent (QUuid): the vocabularies of Success / Authenticate do not contain <token/> / <user-agent/>',
